@@ -44,6 +44,10 @@ def run(P, rep, tier):
     rep.attempt(r2_save_shape, P, rep, ctx)
     rep.attempt(r2_uncommitted_recognisable, P, rep, ctx)
     rep.attempt(r2_manifest_after_commit, P, rep, ctx)
+    from . import c03
+
+    # an interrupted patch is resumed (not buried under a fresh patch) by every writable open mode: open-mode contract
+    rep.attempt(c03.r2_mode_dispatch, P, rep, ctx)
     rep.floor("C11.R2", 12)
     rep.floor("C02.R4", 11)
 
@@ -159,6 +163,13 @@ def r2_manifest_after_commit(P, rep, ctx, rule="C11.R2"):
         hpath = g.find_path(m, avoid=[])
         rep.check(not in_try, rule, fi.qual, "manifest is written outside the try block protecting the commit", fi.loc(g.nodes[m].stmt),
                   construct="manifest save placement", message="manifest file is written inside the try block of the container commit")
+    # the manifest link is part of the *single* user-block write of the commit: it is attached before the container
+    # commit, and the subclass performs no user-block write of its own
+    ub_saves = [c for c in local_calls(fi.node) if call_attr(c) == "save" and not any(call_attr(x) == "save" and x is c and norm(c.func.value) in ("mf", "self.manifest", "self._manifest") for x in [c])]
+    rep.check(not ub_saves, rule, fi.qual, "the manifest subclass writes no user block of its own (single write inside the container commit)", fi.loc(ub_saves[0]) if ub_saves else fi.loc(), construct=f"extra save calls {[norm(c)[:60] for c in ub_saves]}",
+              message=f"IH5MFRecord.commit_patch writes the user block a second time ({[norm(c)[:60] for c in ub_saves]}): a crash between the two writes leaves a container that opens as committed but lacks the manifest link it was committed with")
+    link = [n.idx for n in g.nodes if any(call_attr(c) == "update" and "IH5UBExtManifest(" in norm(c.func.value) for c in g.calls(n.idx))] + [n.idx for n in g.nodes if any(call_attr(c) == "_set_ublock" and len(c.args) > 1 and norm(c.args[1]) == "new_ub" for c in g.calls(n.idx))]
+    rep.check(bool(link) and all(g.every_path_passes(link, s) for s in sup), rule, fi.qual, "the manifest link is attached to the user block before the (single) commit write", fi.loc(), construct="manifest link before commit", message="the manifest link is not part of the user block written by the container commit")
     # failed commit restores the user block
     exc = [n for n in g.nodes if n.kind == "except"]
     for h in exc:
